@@ -62,6 +62,13 @@ def reverse (f : Fragment) : Fragment := { f with strand := -1 * f.strand }
 def rename (f : Fragment) (n : Str) : Fragment := { f with name := n }
 end Fragment
 
+/-- strict code-point lexicographic order on text (Python `str.__lt__`) -/
+def strLt : Str → Str → Bool
+  | [], [] => false
+  | [], _ :: _ => true
+  | _ :: _, [] => false
+  | a :: as, b :: bs => if a.toNat < b.toNat then true else if a.toNat > b.toNat then false else strLt as bs
+
 /-- one cell of a junction tuple: a contig name or a coordinate. -/
 inductive JCell where
   | s (x : Str)
@@ -70,14 +77,26 @@ inductive JCell where
 
 abbrev Junction := JCell × JCell × JCell × JCell
 
-/-- `Fragment.junction_tuple`, as in the source. -/
+/-- `(name, coord) ≤ (name', coord')` as Python compares tuples of `(str, int)` -/
+def endLe (a b : Str × Int) : Bool :=
+  if a.1 = b.1 then decide (a.2 ≤ b.2) else strLt a.1 b.1
+
+/-- `Fragment.junction_tuple`, as in the source: the two mixed-strand cases order the two contig ends
+    (`sorted(...)`, resp. `sorted(..., reverse=True)`; Python's sort is stable, so ties keep the given order). -/
 def junctionTuple (a b : Fragment) : R Junction :=
   if a.strand = 1 then
     if b.strand = 1 then .ok (.s a.name, .i a.stop, .s b.name, .i b.start)
-    else if b.strand = -1 then .ok (.s a.name, .i a.stop, .i b.stop, .s b.name)
+    else if b.strand = -1 then
+      let x := (a.name, a.stop); let y := (b.name, b.stop)
+      let (p, q) := if endLe x y then (x, y) else (y, x)
+      .ok (.s p.1, .i p.2, .i q.2, .s q.1)
     else .error .value
   else if a.strand = -1 then
-    if b.strand = 1 then .ok (.i a.start, .s a.name, .s b.name, .i b.start)
+    if b.strand = 1 then
+      let x := (a.name, a.start); let y := (b.name, b.start)
+      -- reverse=True: descending, equal elements keep their order
+      let (p, q) := if endLe y x then (x, y) else (y, x)
+      .ok (.i p.2, .s p.1, .s q.1, .i q.2)
     else if b.strand = -1 then .ok (.s b.name, .i b.stop, .s a.name, .i a.start)
     else .error .value
   else .error .value
